@@ -34,16 +34,21 @@ ListOf(path, name) ==
                       (CASE name = "recent" -> a.t1 [] name = "frequent" -> a.t2 [] name = "recent_evict" -> a.b1 [] name = "frequent_evict" -> a.b2)
 ToPairs(seq) == [i \in 1..Len(seq) |-> IF Len(seq[i]) = 0 THEN NoItem ELSE <<seq[i][1], seq[i][2]>>]
 ToPairs2(seqs) == [i \in 1..Len(seqs) |-> ToPairs(seqs[i])]
-Word(w) == [i \in 1..Len(w) |-> w[i]]
+Word(w) == [i \in 1..Len(w) |-> <<w[i][1], w[i][2]>>]
 Delta == 100
 Check(r) ==
   LET list == [i \in 1..Len(r.witness) |-> Ent(r.witness[i][1], r.witness[i][2])]
       e == Run(list, r.kind, r.proj, Word(r.word))
-  IN /\ (IF list # ListOf(r.path, r.list) THEN PrintT(<<"POLICY-DRIFT", r.list, ToJson(r.path)>>) ELSE TRUE)
+  IN \* (long random paths are not folded: the drift note is informative only)
+     /\ (IF Len(r.path) <= 40 /\ list # ListOf(r.path, r.list) THEN PrintT(<<"POLICY-DRIFT", r.list, ToJson(r.path)>>) ELSE TRUE)
      /\ ~r.panic
      /\ ToPairs(r.yields) = e.yields
      /\ r.hints = e.hints                       \* size_hint (lower = upper) and ExactSizeIterator::len, after every step
-     /\ r.count = e.count                       \* count() of what is left
+     \* how the rest is consumed: count(), last(), fold (front to back), rfold (back to front)
+     /\ (CASE r.fin = "count" -> r.count = e.count
+           [] r.fin = "last" -> ToPairs(<<r.fin_items[1]>>)[1] = e.last
+           [] r.fin = "fold" -> ToPairs(r.fin_items) = e.rest
+           [] r.fin = "rfold" -> ToPairs(r.fin_items) = Rev(e.rest))
      /\ r.len = Len(list) /\ r.hint_consistent    \* exactly len() items; size_hint lower = upper = ExactSizeIterator::len
      /\ (IF r.mutable THEN TRUE ELSE ToPairs2(r.clones) = e.clones)    \* clones advance independently
      \* writes through a mutable iterator are visible to later reads and do not affect the order
